@@ -423,3 +423,32 @@ func (c *Ctx) IsLibPkgFn(fn *ssa.Function, rels ...string) bool {
 	}
 	return false
 }
+
+// LibPkgs returns the SSA packages of the library, sorted by relative path.
+func (c *Ctx) LibPkgs() []*ssa.Package {
+	var rels []string
+	for rel := range c.SSA {
+		rels = append(rels, rel)
+	}
+	sort.Strings(rels)
+	var out []*ssa.Package
+	for _, rel := range rels {
+		if c.SSA[rel] != nil {
+			out = append(out, c.SSA[rel])
+		}
+	}
+	return out
+}
+
+// IsLibGlobal reports whether g is a package-level variable of a library package.
+func (c *Ctx) IsLibGlobal(g *ssa.Global) bool {
+	if g == nil || g.Pkg == nil {
+		return false
+	}
+	rel, ok := relPath(g.Pkg.Pkg.Path())
+	if !ok {
+		return false
+	}
+	_, lib := c.ByRel[rel]
+	return lib
+}
